@@ -6,6 +6,7 @@ core.restrict_weights), solver.prolongation, solver.RegularGridProlongator,
 meshes.BaseMesh.  Widths, origin, model, fine residual and coarse field are
 all solver variables.
 """
+import os
 import time
 import itertools
 from fractions import Fraction
@@ -44,7 +45,8 @@ def _mk_field(E, grid, parts=None, name=None, pec=False):
 
 
 def _setup(E, shape, aniso):
-    c = set_ctx(Ctx(timeout_ms=120000))
+    c = set_ctx(Ctx(timeout_ms=int(os.environ.get('C04_TIMEOUT_MS',
+                                                   '120000'))))
     State.OBJECT_ALLOC = True
     h = [sym_array(f"h{'xyz'[d]}", shape[d], positive=True) for d in range(3)]
     origin = (Q.var('x0'), Q.var('y0'), Q.var('z0'))
@@ -490,7 +492,8 @@ def main(tier):
     if tier == 'quick':
         cn, on, cap = (4, 6), (2, 3), 100
     else:
-        cn, on, cap = (4, 6, 8), (2, 3, 4, 5), 300
+        cn, on, cap = (4, 6, 8), (2, 3, 4, 5), 200
+        os.environ['C04_TIMEOUT_MS'] = '600000'     # forked workers inherit
     jobs = []
     shapes_used = {}
     for sc_dir in range(7):
